@@ -30,7 +30,7 @@ import (
 // happens-before edges count.
 func init() {
 	Register(&Prop{
-		ID: "C17", Bubble: true, Run: runC17, QuickRuns: 250, Race: true,
+		ID: "C17", Bubble: true, Run: runC17, QuickRuns: 450, Race: true,
 		Rule: "one run = one shared instance group (limit algorithms incl. wrappers; strategies and partitions; limiters and listeners; measurements; pools; gRPC interceptors and the stream wrapper over real limiters; go-metrics / datadog registries; gauge suppliers polled like a registry would) and 2..4 tasks each calling 3..12 seeded exported methods (samples, accessors, String, listener / partition / metric registration, Start / Stop) under one seeded schedule in a -race build; the scheduler's and hooks' own synchronisation is excluded from the detector (runtime.RaceDisable, go:norace); " +
 			"oracle: runtime.RaceErrors() must not increase during the run and the runtime must not crash; non-trivial = at least two tasks executed a mutating method on the shared instance; distinct = distinct (group, method multiset, schedule) hashes",
 		Real:       []string{"limit.*", "strategy.*", "limiter.*", "measurements.*", "metric_registry/gometrics", "metric_registry/datadog", "Go race detector (ThreadSanitizer runtime of go1.26.8)"},
